@@ -411,3 +411,36 @@ def word_graph_dfa_specs(draw, max_hubs=3):
     if draw(st.booleans()):
         items = list(draw(st.permutations(items)))
     return {"Q": list(draw(st.permutations(Q))), "S": S, "d": items, "q0": hubs[0], "F": F, "eps": None}
+
+
+@st.composite
+def late_exit_cycle_dfa_specs(draw):
+    """A cycle c0 -> c1 -> ... -> c(k-1) -> c0 of non-accepting states in which only c0 has a way out (to an accepting state g); the other cycle states are
+    funnels (all symbols lead to the next cycle state).  Accepting 'probe' states funnel into arbitrary cycle states, so whether they can reach acceptance
+    again is only known after going round the cycle.  Entry states, the order in which the transition map is filled and the successors of g are generated.
+    A search that cuts cycles (memoised depth-first search) and a fixpoint computation differ exactly on such automata."""
+    S = ["a", "b"]
+    k = draw(st.integers(2, 4))
+    cyc = ["c%d" % i for i in range(k)]
+    probes = ["v%d" % i for i in range(draw(st.integers(1, 3)))]
+    Q = ["s", "g"] + cyc + probes
+    exit_sym = S[draw(st.integers(0, 1))]
+    items = []
+    for i in range(1, k):
+        for a in S:
+            items.append([cyc[i], a, cyc[(i + 1) % k]])
+    for a in S:
+        items.append([cyc[0], a, "g" if a == exit_sym else cyc[1]])
+    for v in probes:
+        tgt = cyc[draw(st.integers(0, k - 1))]
+        for a in S:
+            items.append([v, a, tgt])
+    pool = Q
+    for a in S:
+        items.append(["s", a, pool[draw(st.integers(1, len(pool) - 1))]])
+        items.append(["g", a, pool[draw(st.integers(0, len(pool) - 1))]])
+    items = list(draw(st.permutations(items)))
+    F = ["g"] + probes + (["s"] if draw(st.booleans()) else [])
+    names_ = draw(names(len(Q)))
+    m = dict(zip(Q, names_))
+    return {"Q": [m[q] for q in Q], "S": S, "d": [[m[p], a, m[q]] for p, a, q in items], "q0": m["s"], "F": [m[q] for q in F], "eps": None}
